@@ -320,6 +320,17 @@ static PyObject* c_anneal_puso(PyObject* self, PyObject* args) {
 
 
 // Create the module.
+#ifdef JTIOSUE_QUBOVERT_VERIF
+/* Verification hook: (checks, dE mismatches, out-of-bounds indices) seen by
+   the kernels since the last call; resets the counters. */
+extern long qvverif_checks, qvverif_mismatches, qvverif_bounds;
+static PyObject* c_verif_counters(PyObject* self, PyObject* args) {
+    PyObject *res = Py_BuildValue("lll", qvverif_checks, qvverif_mismatches,
+                                  qvverif_bounds);
+    qvverif_checks = 0; qvverif_mismatches = 0; qvverif_bounds = 0;
+    return res;
+}
+#endif
 
 static PyMethodDef CAnnealMethods[] = {
     {
@@ -334,6 +345,14 @@ static PyMethodDef CAnnealMethods[] = {
         METH_VARARGS,
         c_anneal_puso_docstring
     },
+#ifdef JTIOSUE_QUBOVERT_VERIF
+    {
+        "c_verif_counters",
+        c_verif_counters,
+        METH_NOARGS,
+        "verification hook: (checks, mismatches, bounds) since last call"
+    },
+#endif
     {NULL, NULL, 0, NULL}  // Sentinel
 };
 
